@@ -874,6 +874,10 @@ func genC18(seed uint64, tier string, outdir string) *Report {
 	genC18Oracle(rep, seed, tier, R, &id)
 	genC18Genesis(rep, seed, tier, R, &id)
 	genC18Hook(rep, seed, tier, R, &id)
+	genC18Sched(rep, seed, tier, &id)
+	if tier == "thorough" || os.Getenv("VERIF_C18_RACE") != "" {
+		c18RaceExtra(rep, seed)
+	}
 	writeShards(outdir, "C18l1", l1CaseHeader, "run_l1case", "l1case", l1Texts, 8, rep)
 	writeShards(outdir, "C18l2", l2CaseHeader, "run_l2case", "l2case", l2Texts, 8, rep)
 	return rep
